@@ -3001,7 +3001,8 @@ class Composite(ArmiObject):
         self._backupCache = (self.cached, self._backupCache)
         self.cached = {}  # don't .clear(), using reference above!
         self.p.backUp()
-        if self.spatialGrid:
+        if self.spatialGrid is not None:
+            # (a grid without locations yet is falsy, but has a pitch / bounds all the same)
             self.spatialGrid.backUp()
 
     def restoreBackup(self, paramsToApply):
@@ -3015,7 +3016,7 @@ class Composite(ArmiObject):
         """
         self.p.restoreBackup(paramsToApply)
         self.cached, self._backupCache = self._backupCache
-        if self.spatialGrid:
+        if self.spatialGrid is not None:
             self.spatialGrid.restoreBackup()
 
     def getLumpedFissionProductsIfNecessary(self, nuclides=None):
